@@ -25,6 +25,10 @@ type convKind struct {
 
 func cvFn() int { return 7 }
 
+type cvErr struct{ msg string }
+
+func (e *cvErr) Error() string { return "cvErr" }
+
 func convKinds() []convKind {
 	ch := make(chan int, 1)
 	e1 := errors.New("e1")
@@ -32,10 +36,12 @@ func convKinds() []convKind {
 		{"ptr", conv.RPtr, conv.PPtr,
 			map[string]interface{}{"nil": nil, "typednil": (*conv.S)(nil), "val": &conv.S{1, "a"}, "lookalike": &conv.SL{2, "b"}},
 			map[string]interface{}{"val": &conv.S{1, "a"}, "lookalike": &conv.S{2, "b"}}},
-		{"error", conv.RErr, conv.PErr, map[string]interface{}{"nil": nil, "concrete": e1}, map[string]interface{}{"concrete": e1}},
-		{"any", conv.RAny, conv.PAny, map[string]interface{}{"nil": nil, "concrete": conv.S{3, "c"}}, map[string]interface{}{"concrete": conv.S{3, "c"}}},
-		{"slice", conv.RSlice, conv.PSlice, map[string]interface{}{"nil": nil, "typednil": []int(nil), "val": []int{1, 2}}, map[string]interface{}{"val": []int{1, 2}}},
-		{"map", conv.RMap, conv.PMap, map[string]interface{}{"nil": nil, "typednil": map[string]int(nil), "val": map[string]int{"a": 1}}, map[string]interface{}{"val": map[string]int{"a": 1}}},
+		{"error", conv.RErr, conv.PErr, map[string]interface{}{"nil": nil, "concrete": e1, "nilconcrete": (*cvErr)(nil)},
+			map[string]interface{}{"concrete": e1, "nilconcrete": (*cvErr)(nil)}},
+		{"any", conv.RAny, conv.PAny, map[string]interface{}{"nil": nil, "concrete": conv.S{3, "c"}, "nilconcrete": (*conv.S)(nil)},
+			map[string]interface{}{"concrete": conv.S{3, "c"}, "nilconcrete": (*conv.S)(nil)}},
+		{"slice", conv.RSlice, conv.PSlice, map[string]interface{}{"nil": nil, "typednil": []int(nil), "val": []int{1, 2}, "diffsize": (*conv.S)(nil)}, map[string]interface{}{"val": []int{1, 2}}},
+		{"map", conv.RMap, conv.PMap, map[string]interface{}{"nil": nil, "typednil": map[string]int(nil), "val": map[string]int{"a": 1}, "diffsize": []int(nil)}, map[string]interface{}{"val": map[string]int{"a": 1}}},
 		{"chan", conv.RChan, conv.PChan, map[string]interface{}{"nil": nil, "typednil": (chan int)(nil), "val": ch}, map[string]interface{}{"val": ch}},
 		{"func", conv.RFunc, conv.PFunc, map[string]interface{}{"nil": nil, "typednil": (func() int)(nil), "val": cvFn}, map[string]interface{}{"val": cvFn}},
 		{"struct", conv.RStruct, conv.PStruct,
@@ -84,8 +90,8 @@ func deliveredAs(class string, k convKind, got reflect.Value, sup interface{}) s
 			}
 		}
 		return "typedzero"
-	case "concrete":
-		if got.Elem().Type() != reflect.TypeOf(sup) {
+	case "concrete", "nilconcrete":
+		if got.IsNil() || got.Elem().Type() != reflect.TypeOf(sup) {
 			return "wrong-dynamic-type"
 		}
 		return "boxed"
@@ -102,6 +108,7 @@ func TestVerifArgConv(t *testing.T) {
 		t.Skip()
 	}
 	quiet()
+	baseLogging()
 	of, _ := os.Create(out)
 	defer of.Close()
 	bw := bufio.NewWriter(of)
@@ -139,7 +146,7 @@ func TestVerifArgConv(t *testing.T) {
 							}
 							r := reflect.ValueOf(k.par).Call([]reflect.Value{a})
 							if r[0].Int() == 9001 {
-								outcome = map[string]string{"nil": "typedzero", "concrete": "boxed", "lookalike": "retyped", "samesize": "retyped"}[class]
+								outcome = map[string]string{"nil": "typedzero", "concrete": "boxed", "nilconcrete": "boxed", "lookalike": "retyped", "samesize": "retyped"}[class]
 								if outcome == "" {
 									outcome = "same"
 								}
